@@ -181,6 +181,43 @@ class Runner:
         self.sym_mismatch, self.run_mismatch = [], []
 
 
+def setblock_filter_ksym(run_, ctx, rng):
+    """K-sym for {% set x | default(args) %}body{% endset %} after some statements: the filter
+    arguments are analysed in the block's frame (RootVisitor.visit_AssignBlock)."""
+    cases, lines = [], []
+    for i in range(ctx.size(300, 5000)):
+        g = G.SGen(rng, size=rng.randint(2, 8))
+        pre = g.program() if rng.random() < 0.6 else []
+        body = g.program()
+        x = g.name()
+        args = [g.expr(1) for _ in range(rng.randint(1, 2))]
+        N = G.Names()
+        src = G.p_src(pre) + "{% set " + x + " | default(" + ", ".join(G.e_src(e) for e in args[:1]) + ")" \
+            + ("|replace('q', " + G.e_src(args[1]) + ")" if len(args) > 1 else "") + " %}" + G.p_src(body) + "{% endset %}"
+        line = ("(symf " + str(N.id(x)) + " (args " + " ".join(G.e_sx(e, N) for e in args) + ") (pre "
+                + " ".join(G.s_sx(s, N) for s in pre) + ") (body " + " ".join(G.s_sx(s, N) for s in body) + "))")
+        cases.append((src, N))
+        lines.append(line)
+    out = ctx.driver("scope", lines)
+    bad = []
+    for (src, N), msym in zip(cases, out):
+        rsym, _ = run_.real_symbols(src, N)
+        ctx.case(key=("setblock-filter", src))
+        ctx.count("ksym_setblock_filter")
+        if rsym == "compile:AssertionError":
+            # the code generator could not resolve a name of the template: every name must resolve
+            # to a binder or to the context (binding_covers)
+            ctx.reject({"src": src, "kind": "setblock-filter", "data": {}},
+                       "compiling the template raises an internal AssertionError (a name used in the filter "
+                       "arguments of a block set is unknown to the block's frame)", None)
+        elif rsym != msym:
+            bad.append((len(src), src, msym, rsym))
+        else:
+            ctx.validated()
+    for _, src, m, r in sorted(bad)[:3]:
+        ctx.model_mismatch("K-sym Symbols of a filtered block set", {"src": src, "kind": "setblock-filter"}, m, r, None)
+
+
 def alpha_maps(rng, names):
     fresh = [f"v{i}_{rng.randint(0, 99)}" for i in range(len(names))]
     weird = rng.sample(WEIRD_NAMES, len(names))
@@ -276,6 +313,7 @@ def run(ctx):
     for i in range(0, len(batch), 400):
         run_.judge(batch[i:i + 400])
     run_.flush()
+    setblock_filter_ksym(run_, ctx, rng)
     # alpha-renaming metamorphic runs
     for p, datas in progs[:ctx.size(400, 6000)]:
         alpha_check(run_, ctx, p, datas[0], rng)
@@ -283,6 +321,13 @@ def run(ctx):
 
 def replay(ctx, data):
     case = data.get("case")
+    if data.get("kind") == "failing-input" and isinstance(case, dict) and case.get("kind") == "setblock-filter":
+        run_ = Runner(ctx)
+        rsym, _ = run_.real_symbols(case["src"], G.Names())
+        print("template:", case["src"], "\nsymbols engine:", rsym)
+        if rsym == "compile:AssertionError":
+            ctx.reject(case, "compiling the template raises an internal AssertionError", None)
+        return
     if data.get("kind") != "failing-input" or not isinstance(case, dict) or "prog" not in case:
         print("replay: this file names a broken theorem / correspondence, not an input:", data.get("broken"))
         return run(ctx)
